@@ -10,8 +10,25 @@
 
 namespace verif {
 
+// A fault plan that several allocators can share: positions are counted over all of them in call order.
+struct FaultPlan {
+  uint64_t calls = 0, delivered = 0;
+  std::vector<uint64_t> failAt;
+  uint64_t failFrom = 0;
+  bool armed = false;
+  bool next() {
+    calls++;
+    if (!armed) return false;
+    bool f = failFrom && calls >= failFrom;
+    for (auto k : failAt) f = f || k == calls;
+    if (f) delivered++;
+    return f;
+  }
+};
+
 class LedgerAllocator : public ArduinoJson::Allocator {
  public:
+  FaultPlan* shared = nullptr;  // when set, fault decisions come from the shared plan
   struct Block {
     size_t size;
     uint64_t serial;
@@ -55,6 +72,11 @@ class LedgerAllocator : public ArduinoJson::Allocator {
 
   bool shouldFail() {
     faultCalls++;
+    if (shared) {
+      bool f = shared->next();
+      if (f) faultsDelivered++;
+      return f;
+    }
     bool f = failAll || (failFrom && faultCalls >= failFrom);
     for (auto k : failAt) f = f || k == faultCalls;
     if (f) faultsDelivered++;
